@@ -1,41 +1,72 @@
 package syntax
 
 import (
+	"fmt"
+
 	"github.com/arr-ai/arrai/rel"
 )
 
-func subset(a, b rel.Value) bool {
-	s := a.(rel.Set)
-	t := b.(rel.Set)
-	if t.Count() == 0 {
-		return false
+// setOperands returns the operands of a set comparison as sets.
+func setOperands(op string, a, b rel.Value) (s, t rel.Set, err error) {
+	s, is := a.(rel.Set)
+	if !is {
+		return nil, nil, fmt.Errorf("%s lhs not a set: %v", op, a)
 	}
+	t, is = b.(rel.Set)
+	if !is {
+		return nil, nil, fmt.Errorf("%s rhs not a set: %v", op, b)
+	}
+	return s, t, nil
+}
+
+func isSubset(s, t rel.Set) bool {
 	for e := s.Enumerator(); e.MoveNext(); {
 		if !t.Has(e.Current()) {
 			return false
 		}
 	}
-	return s.Count() < t.Count()
+	return true
 }
 
-func subsetOrEqual(a, b rel.Value) bool {
-	s := a.(rel.Set)
-	t := b.(rel.Set)
+func subset(op string, a, b rel.Value) (bool, error) {
+	s, t, err := setOperands(op, a, b)
+	if err != nil {
+		return false, err
+	}
 	if t.Count() == 0 {
-		return s.Count() == 0
+		return false, nil
 	}
-	for e := s.Enumerator(); e.MoveNext(); {
-		if !t.Has(e.Current()) {
-			return false
-		}
-	}
-	return s.Count() <= t.Count()
+	return isSubset(s, t) && s.Count() < t.Count(), nil
 }
 
-func subsetOrSuperset(a, b rel.Value) bool {
-	return subset(a, b) || subset(b, a) && !a.Equal(b)
+func subsetOrEqual(op string, a, b rel.Value) (bool, error) {
+	s, t, err := setOperands(op, a, b)
+	if err != nil {
+		return false, err
+	}
+	if t.Count() == 0 {
+		return s.Count() == 0, nil
+	}
+	return isSubset(s, t) && s.Count() <= t.Count(), nil
 }
 
-func subsetSupersetOrEqual(a, b rel.Value) bool {
-	return subset(a, b) || subset(b, a) || a.Equal(b)
+func subsetOrSuperset(op string, a, b rel.Value) (bool, error) {
+	sub, err := subset(op, a, b)
+	if err != nil || sub {
+		return sub, err
+	}
+	sup, err := subset(op, b, a)
+	return sup && !a.Equal(b), err
+}
+
+func subsetSupersetOrEqual(op string, a, b rel.Value) (bool, error) {
+	sub, err := subsetOrSuperset(op, a, b)
+	if err != nil || sub {
+		return sub, err
+	}
+	return a.Equal(b), nil
+}
+
+func not(sat bool, err error) (bool, error) {
+	return !sat && err == nil, err
 }
